@@ -3,20 +3,20 @@ from checks import unitscheck
 
 MENUS = {
     'quick': [
-        ('types', ['tA', 'tB', 'tM', 'tAB', 'tA2', 'tApB', 'tBi', 'tMpA', 'tA1', 'tA2_dup2', 'tA_dupsym', 'tMpA_dup'], 6),
-        ('sameDef', ['tA', 'tA2', 'ka', 'ka2', 'kk', 'sq', 'ha', 'd_kk_ka', 'd_ka2_ka', 'm_ka_ka'], 7),
-        ('units', ['tA', 'tB', 'tAB', 'tA2', 'ka', 'ha', 'cb', 'kab', 'ka2', 'kacb', 'sq', 'aa'], 7),
-        ('terms3', ['tA', 'tB', 'ka', 'cb', 'kbc', 'kbc2', 'ha'], 7),
-        ('quantized', ['tD', 'kd', 'td', 'hd', 'tA', 'ka'], 6),
-        ('dupsym', ['tA', 'tB', 'tA2', 'ka', 'cb', 'ka_dupB', 'a_dup', 'empty', 'nonstr', 'xb_wrongtype', 'ka2', 'bad_dim'], 6),
-        ('noref', ['tA', 'tM', 'tMpA', 'p', 'q', 'ka', 'ppa', 'ppka', 'qpa', 'p_dup'], 7),
+        ('types', ['tA', 'tB', 'tM', 'tAB', 'tA2', 'tApB', 'tBi', 'tMpA', 'tA1', 'tA2_dup2', 'tA_dupsym', 'tMpA_dup'], 5),
+        ('sameDef', ['tA', 'tA2', 'ka', 'ka2', 'kk', 'sq', 'ha', 'd_kk_ka', 'd_ka2_ka', 'm_ka_ka'], 6),
+        ('units', ['tA', 'tB', 'tAB', 'tA2', 'ka', 'ha', 'cb', 'kab', 'ka2', 'kacb', 'sq', 'aa'], 6),
+        ('terms3', ['tA', 'tB', 'ka', 'cb', 'kbc', 'kbc2', 'ha'], 6),
+        ('quantized', ['tD', 'kd', 'td', 'hd', 'tA', 'ka'], 5),
+        ('dupsym', ['tA', 'tB', 'tA2', 'ka', 'cb', 'ka_dupB', 'a_dup', 'empty', 'nonstr', 'xb_wrongtype', 'ka2', 'bad_dim'], 5),
+        ('noref', ['tA', 'tM', 'tMpA', 'p', 'q', 'ka', 'ppa', 'ppka', 'qpa', 'p_dup'], 6),
     ],
     'thorough': [
-        ('types', ['tA', 'tB', 'tM', 'tAB', 'tA2', 'tApB', 'tBi', 'tMpA', 'tA1', 'tA2_dup2', 'tA2_dup', 'tA_dupsym'], 7),
-        ('units', ['tA', 'tB', 'tAB', 'tA2', 'ka', 'ha', 'ta', 'cb', 'kab', 'ka2', 'kacb', 'sq', 'aa', 'bad_dim'], 8),
-        ('terms3', ['tA', 'tB', 'ka', 'cb', 'kbc', 'kbc2', 'ha', 'ta'], 8),
-        ('quantized', ['tD', 'kd', 'td', 'hd', 'tA', 'ka', 'tM', 'p'], 8),
-        ('noref', ['tA', 'tM', 'tMpA', 'p', 'q', 'ka', 'ha', 'ppa', 'ppka', 'qpa', 'p_dup'], 8),
+        ('types', ['tA', 'tB', 'tM', 'tAB', 'tA2', 'tApB', 'tBi', 'tMpA', 'tA1', 'tA2_dup2', 'tA2_dup', 'tA_dupsym'], 6),
+        ('units', ['tA', 'tB', 'tAB', 'tA2', 'ka', 'ha', 'ta', 'cb', 'kab', 'ka2', 'kacb', 'sq', 'aa', 'bad_dim'], 7),
+        ('terms3', ['tA', 'tB', 'ka', 'cb', 'kbc', 'kbc2', 'ha', 'ta'], 7),
+        ('quantized', ['tD', 'kd', 'td', 'hd', 'tA', 'ka', 'tM', 'p'], 7),
+        ('noref', ['tA', 'tM', 'tMpA', 'p', 'q', 'ka', 'ha', 'ppa', 'ppka', 'qpa', 'p_dup'], 7),
     ]}
 
 
